@@ -21,7 +21,7 @@ VARIABLE bringup
 B29 == {<<>>, <<"y">>, <<"y", "y">>}
 B30 == {<<"w">>, <<"y", "w">>, <<"e", "y">>}
 Call29 == [kind : UserKinds, body : B29]
-Call30 == [kind : Kinds \ {"intro", "methnr"}, body : B30] \cup {[kind |-> "intro", body |-> <<>>]}
+Call30 == [kind : Kinds \ {"intro", "methnr", "ping"}, body : B30] \cup [kind : {"intro", "ping"}, body : {<<>>}]
 CallLz == [kind : {"meth"}, body : {<<>>, <<"y">>}]
 
 (* C29 also with property accesses in between: Properties.Get/Set always run in their own task and hold X's lock
